@@ -292,7 +292,7 @@ rfbScreenInfoPtr rfbScaledScreenAllocate(rfbClientPtr cl, int width, int height)
          * performed during initial, non-scaled screen setup.
          */
         allocSize = pad4(width * (ptr->bitsPerPixel/8)); /* per protocol, width<2**16 and bpp<256 */
-        if (height == 0 || allocSize >= SIZE_MAX / height)
+        if (width == 0 || height == 0 || allocSize >= SIZE_MAX / height)
         {
           free(ptr);
           return NULL; /* malloc() will allocate an incorrect buffer size - early abort */
